@@ -544,7 +544,13 @@ def run_property(pid, tier, seed):
     for n in names:
         if built and not thm[n]['ok']:
             broken.append('theorem %s depends on: %s' % (n, thm[n]['assumptions']))
-    res = {'pid': pid, 'tier': tier, 'seed': seed, 'broken': broken, 'violations': [], 'known': {}, 'theorems': thm, 'names': names,
+    chk = None
+    if tier == 'thorough' and built and names:
+        ok_, axioms_, tail_ = coqbuild.coqchk(spec['theorems'][0])
+        chk = {'ok': ok_, 'axioms': axioms_}
+        if not ok_:
+            broken.append('coqchk does not accept theories/Props/%s: axioms=%s %s' % (spec['theorems'][0], axioms_, tail_[-300:]))
+    res = {'pid': pid, 'tier': tier, 'seed': seed, 'coqchk': chk, 'broken': broken, 'violations': [], 'known': {}, 'theorems': thm, 'names': names,
            'st': st, 'samples': [], 'stats': {}}
     if not st['harness_ok']:
         broken.append('implementation does not build with hooks: ' + '; '.join(st['errors'])[:800])
@@ -768,6 +774,7 @@ def finish(pid, res):
         'known_findings': res['known'],
         'timing': {k: stats.get(k) for k in ('t_impl', 't_model')},
         'engine_model_validation': stats.get('engine_model'),
+        'coqchk': res.get('coqchk'),
     }
     ev = {'property_id': pid, 'tier': tier if tier in ('quick', 'thorough') else 'quick', 'seed': seed, 'level': 'proof', 'coverage': cov,
           'assumptions': ['lower_idem: to_lowercase is idempotent on every lower-cased test case (checked per case by the harness)',
